@@ -599,7 +599,9 @@ def tie(chk, tie_cases):
                         chk.tie_break("extract-signal", sinf, "signal not found in the file by the extractor", None)
                         continue
                     for xs in xs_list:
-                        add(601, [[c, nota] + args], [xs], dict(sinf, what="position fields in file"))
+                        # KCD: an absent length attribute and length="1" are the same file content to every reader (schema default,
+                        # theorem C06_kcd_length_default_equivalent); which of the two a writer picks is not the property's business
+                        add(601, [[c, nota] + args], ("kcd-length-canonical", [xs]) if c == 4 else [xs], dict(sinf, what="position fields in file"))
                     if fb is not None:
                         sb = next((s for s in fb.signals if s.name == fmt_rt.expected_signal_name(cfg, fo, so)), None)
                         if sb is not None:
@@ -615,6 +617,9 @@ def tie(chk, tie_cases):
             exp = exp[1]
         if isinstance(exp, tuple) and exp[0] == "not-raise":
             continue
+        if isinstance(exp, tuple) and exp[0] == "kcd-length-canonical":
+            canon = lambda gs: [[g[0], 1 if g[1] == -1 else g[1]] + list(g[2:]) if len(g) >= 3 else g for g in gs]
+            got, exp = canon(got), canon(exp[1])
         if got != exp:
             bad += 1
             chk.tie_break("fmtpos", inf, got, exp)
